@@ -34,6 +34,16 @@ def fn(*a, **k):
     return (a, k)
 
 
+class Unparseable:
+    """An object whose repr is not a Python expression."""
+
+    def __repr__(self):
+        return '<unparseable>'
+
+
+BAD = Unparseable()
+
+
 def instances():
     D = 'datetime.datetime'
     T = 'datetime.timedelta'
@@ -87,12 +97,14 @@ def instances():
     add('enum', 'vf.stdvals.Shade.DARK', 'vf.subcls.Color.RED', 'vf.subcls.Color.BIG', 'vf.stdvals.Access.R',
         'vf.subcls.Perm.W')
     add('flagcombo', 'vf.stdvals.Access.R | vf.stdvals.Access.W', 'vf.stdvals.Access(0)')
-    add('namespace', 'types.SimpleNamespace()', "types.SimpleNamespace(a=1, b='x')", 'types.SimpleNamespace(z=[1], a=None)')
-    add('namedtuple', 'vf.stdvals.Point(1, 2)', 'vf.stdvals.Point([1], {})', 'vf.stdvals.Empty()',
+    add('namespace', 'types.SimpleNamespace()', "types.SimpleNamespace(a=1, b='x')", 'types.SimpleNamespace(z=[1], a=None)',
+        'types.SimpleNamespace(fn=len)', 'types.SimpleNamespace(a=1, cls=collections.OrderedDict, z=vf.stdvals.fn)')
+    add('namedtuple', 'vf.stdvals.Point(len, 1)', 'vf.stdvals.Point(0, vf.stdvals.fn)', 'vf.stdvals.Point(1, 2)', 'vf.stdvals.Point([1], {})', 'vf.stdvals.Empty()',
         "vf.stdvals.Typed('n')", "vf.stdvals.Typed('n', 3)")
     add('structtime', 'time.gmtime(0)', 'time.struct_time((2020, 1, 2, 3, 4, 5, 6, 7, 0))')
     add('partial', 'functools.partial(vf.stdvals.fn)', 'functools.partial(vf.stdvals.fn, 1, k=2)',
-        "functools.partial(vf.stdvals.fn, 'a', [1])", 'functools.partial(sorted, key=None)')
+        "functools.partial(vf.stdvals.fn, 'a', [1])", 'functools.partial(sorted, key=None)',
+        'functools.partial(dict, fn=len)', 'functools.partial(sorted, key=vf.stdvals.fn, reverse=True)')
     add('exception', "ValueError('x', 1)", 'KeyError()', "vf.stdvals.MyError('boom')", 'Exception([1, 2])',
         "OSError(2, 'msg')", 'StopIteration(None)', "UnicodeDecodeError('utf-8', b'x', 0, 1, 'bad')")
     add('path', "pathlib.PurePosixPath('a/b')", "pathlib.PurePosixPath('.')", "pathlib.PurePosixPath('/')",
